@@ -3,6 +3,7 @@
 from __future__ import annotations
 
 import atexit
+import codecs
 import contextlib
 import json
 import os
@@ -313,6 +314,8 @@ class _JSONPipeCommunicator:
 
         self._read_fd: int
         self._write_fd: int | None
+        self._buffer: str
+        self._decoder: codecs.IncrementalDecoder
         self._selector: selectors.BaseSelector
 
         if not read_pipe.exists():
@@ -323,6 +326,8 @@ class _JSONPipeCommunicator:
     def __enter__(self) -> Self:
         self._read_fd = os.open(self._read_pipe, os.O_RDONLY | os.O_NONBLOCK)
         self._write_fd = None
+        self._buffer = ""
+        self._decoder = codecs.getincrementaldecoder("utf-8")()
         self._selector = selectors.DefaultSelector()
         self._selector.register(self._read_fd, selectors.EVENT_READ)
         return self
@@ -337,13 +342,22 @@ class _JSONPipeCommunicator:
         events = self._selector.select(timeout=self._timeout)
         for _, mask in events:
             if mask & selectors.EVENT_READ:
-                with os.fdopen(os.dup(self._read_fd), "r", encoding="utf-8") as fd:
-                    buffer = ""
-                    while line := fd.readline():
-                        if line.strip() == self.DELIMITER:
-                            buffer = buffer.strip()
-                            return json.loads(buffer) if buffer else buffer
-                        buffer += line
+                # A large message arrives in several pieces: keep what has
+                # been received until its delimiter line is there.
+                while True:
+                    try:
+                        chunk = os.read(self._read_fd, 65536)
+                    except BlockingIOError:
+                        break
+                    if not chunk:
+                        break
+                    self._buffer += self._decoder.decode(chunk)
+        lines = self._buffer.split("\n")
+        for index, line in enumerate(lines[:-1]):  # The last item is an unfinished line.
+            if line.strip() == self.DELIMITER:
+                message = "\n".join(lines[:index]).strip()
+                self._buffer = "\n".join(lines[index + 1 :])
+                return json.loads(message) if message else message
         return None
 
     def write(self, data: str | list[Any] | dict[str, Any]) -> bool:
@@ -361,9 +375,19 @@ class _JSONPipeCommunicator:
         events = self._selector.select(timeout=self._timeout)
         for _, mask in events:
             if mask & selectors.EVENT_WRITE:
-                os.write(
-                    self._write_fd,
-                    f"{json.dumps(data, cls=NumpyEncoder)}\n{self.DELIMITER}\n".encode(),
+                payload = memoryview(
+                    f"{json.dumps(data, cls=NumpyEncoder)}\n{self.DELIMITER}\n".encode()
                 )
+                # The pipe is non-blocking and takes at most its capacity at
+                # once: write the remainder when the reader has made room.
+                with selectors.DefaultSelector() as writable:
+                    writable.register(self._write_fd, selectors.EVENT_WRITE)
+                    while payload:
+                        try:
+                            payload = payload[os.write(self._write_fd, payload) :]
+                        except BlockingIOError:
+                            pass
+                        if payload:
+                            writable.select(timeout=self._timeout)
                 return True
         return False
